@@ -3,6 +3,8 @@
 Case: {"mode": "c13"|"c14"|"c20", "h": [step records from TLC], "loops": int}
 Result: {"steps": [observation per step], "events": [...H1 events...], "growth": {...}}
 """
+import copy
+import dataclasses
 import gc
 import sys
 import weakref
@@ -21,6 +23,12 @@ CLS = dict(sgmodel.HIER)
 CLS["P"] = Person
 CLS["C"] = Company
 NAME = {v: k for k, v in CLS.items()}
+
+# truth value of every model instance, switchable per case: a Symbol whose class defines __bool__ / __len__ may be falsy
+# while it is alive (an empty container-like symbol).  With FALSY[0] = False this is the default truthiness.
+FALSY = [False]
+for _k in set(CLS.values()):
+    _k.__bool__ = lambda self: not FALSY[0]
 
 EVENTS = []
 CURRENT = [None]   # the Run whose objects give meaning to addresses
@@ -107,7 +115,28 @@ class Run:
         if a == "create":
             o = rec["o"] + self.base
             k = CLS[rec["c"]]
-            inst = k(name=f"o{o}") if rec["c"] in ("P", "C") else k(n=o)
+            mode = rec.get("mode")
+            if not mode:
+                inst = k(name=f"o{o}") if rec["c"] in ("P", "C") else k(n=o)
+            else:
+                # a new instance that does not come from calling the class (SymbolGraph.tla CreateFrom)
+                src = self.objs[rec["src"] + self.base]
+                if mode == "copy":
+                    inst = copy.copy(src)
+                elif mode == "deepcopy":
+                    inst = copy.deepcopy(src)
+                elif mode == "replace":
+                    inst = dataclasses.replace(src, n=o)
+                elif mode == "from_dao":
+                    from harness.models import sgorm
+                    from krrood.ormatic.dao import to_dao
+                    sgorm.interface()
+                    inst = to_dao(src).from_dao()
+                else:
+                    raise ValueError(mode)
+                if type(inst) is not k:
+                    out["error"] = f"{mode} produced a {type(inst).__name__}"
+                del src
             self.objs[o] = inst
             self.wr[o] = weakref.ref(inst)
             self.cls[o] = rec["c"]
@@ -190,6 +219,7 @@ def handle(case):
     SymbolGraph()
     EVENTS = []
     vh.install(sink if case.get("events", True) else None)
+    FALSY[0] = bool(case.get("falsy"))
     run = Run()
     CURRENT[0] = run
     res = {"steps": []}
@@ -225,6 +255,7 @@ def handle(case):
             res["addr_reuse"] = run.addr_reuse
     finally:
         CURRENT[0] = None
+        FALSY[0] = False
         vh.install(None)
     res["events"] = EVENTS
     EVENTS = []
